@@ -157,8 +157,12 @@ abbrev Part := Nat → Nat
 /-- `Partition::new()` -/
 def Part.new : Part := fun x => x
 
-/-- `p.unite(&a, &b)` -/
-def Part.unite (p : Part) (a b : Nat) : Part := fun x => if p x = p b then p a else p x
+/-- `p.unite(&a, &b)`: the class of `b` gets the label of `a` (the two labels are computed once,
+    when the closure is built, so that a chain of k unions answers `find` in O(k)) -/
+def Part.unite (p : Part) (a b : Nat) : Part :=
+  let pa := p a
+  let pb := p b
+  fun x => let px := p x; if px = pb then pa else px
 
 /-- the `for i in 0..=self.dim()` loop of `fold` after `p.unite(&d, &e)`;
     `none` = `return None` -/
